@@ -328,6 +328,8 @@ def _operand(s):
         return _operand(s[9:])
     if s.startswith('const '):
         return ('const', _const(s[6:].strip()))
+    if re.match(r"^[A-Za-z_][\w:<>', ]*$", s):
+        return ('const', ('path', s))   # fn item / tuple-struct constructor used as a value
     raise Unsupported('operand: ' + s)
 
 
